@@ -10,7 +10,8 @@
 //         lowprio - (known finding) low priority task submitted while the last worker is suspended
 //         a suffix "+low" on pu / pool / refuse adds low priority tasks to the generated work
 //   policy: local-priority-fifo | local-priority-lifo | static-priority | abp-priority-fifo | abp-priority-lifo
-// Prints: header, log lines, `monitor <text>` lines (observable violations), `end ok|hang|livelock`.
+// Prints: header, log lines, `monitor <text>` lines (observable violations), `end ok|hang|livelock|overflow`
+// (overflow = log budget exhausted, no verdict).
 #include "../e2_log.hpp"
 
 #include <pika/execution.hpp>
@@ -25,6 +26,7 @@
 #include <chrono>
 #include <cstring>
 #include <functional>
+#include <map>
 #include <memory>
 #include <string>
 #include <pthread.h>
@@ -52,11 +54,29 @@ struct rng
 static bool want_el(char const* s) { return s[0] == 'e' && s[1] == 'l' && s[2] == '.'; }
 // polling sites: the loop-top state sample and the idle-branch state test are recorded only when they
 // see a state on the way to sleep (>= pre_sleep resp. == pre_sleep); everything else is stutter
-static bool drop_rec(char const* site, std::uint64_t, std::uint64_t b)
+// The filter also counts, per worker, how many times in a row it went through the idle branch in
+// `pre_sleep` without being allowed to sleep while no counter of its own queues moved: 100000 such
+// iterations of the worker itself = livelock (a count of the worker's own steps, not of time).
+static std::map<void const*, std::pair<std::uint64_t, std::uint64_t>> g_qpool;    // queue -> (raw scheduler, worker)
+static std::map<std::pair<std::uint64_t, std::uint64_t>, std::uint64_t> g_spin;    // (scheduler, worker) -> fruitless iterations
+static std::atomic<bool> g_livelock{false};
+static bool drop_rec(char const* site, void const* obj, std::uint64_t a, std::uint64_t b)
 {
     if (site[0] != 'e' || site[1] != 'l') return false;
     if (std::strcmp(site, "el.top") == 0) return (b & 0xff) < 7;
-    if (std::strcmp(site, "el.chk") == 0) return (b & 0xff) != 7;
+    if (std::strcmp(site, "el.chk") == 0)
+    {
+        if ((b & 0xff) != 7) return true;
+        if (((b >> 8) & 1) == 0 && ++g_spin[{reinterpret_cast<std::uint64_t>(obj), a}] > 100000) g_livelock.store(true);
+        return false;
+    }
+    if (std::strcmp(site, "el.qmap") == 0) g_qpool[obj] = {b, a & 0xffff};
+    else if (std::strcmp(site, "el.inc") == 0 || std::strcmp(site, "el.dec") == 0)
+    {
+        auto it = g_qpool.find(obj);
+        if (it != g_qpool.end()) g_spin[it->second] = 0;
+    }
+    else if (std::strcmp(site, "el.sleep") == 0) g_spin[{reinterpret_cast<std::uint64_t>(obj), a}] = 0;
     return false;
 }
 
@@ -199,7 +219,8 @@ static void run_on(int where, std::vector<std::thread>& os, std::function<void()
 }
 
 // ---- state based (never time based) completion / hang detection ---------------------------------
-// returns 0 ok, 1 hang (nothing moves any more although obligations are outstanding), 2 log overflow.
+// returns 0 ok, 1 hang (nothing moves any more although obligations are outstanding), 2 livelock (see
+// drop_rec), 3 log budget exhausted (no verdict: e.g. a controller task yield-spinning on a slow machine).
 // A poll counts as "quiet" only if neither the log nor the ledger moved AND every worker thread (of
 // both pools) that is not asleep has itself consumed at least 0.5 ms of CPU time since the previous
 // quiet poll (idle workers spin through their scheduling loop, so a worker that got CPU and still
@@ -240,7 +261,8 @@ static int wait_until(std::function<bool()> finished)
     for (;;)
     {
         std::this_thread::sleep_for(std::chrono::milliseconds(2));
-        if (e2::g_overflow.load()) return 2;
+        if (g_livelock.load()) return 2;
+        if (e2::g_overflow.load()) return 3;
         if (finished())
         {
             std::this_thread::sleep_for(std::chrono::milliseconds(2));
@@ -457,7 +479,7 @@ static int prog_lowprio(rng& r)
         ex::start_detached(ex::schedule(s) | ex::then([=] { body(id, bs, 0); }));
     }
     int rc = wait_until(all_done);
-    if (rc != 0) monitor("low priority task stranded while the last worker is suspended");
+    if (rc == 1 || rc == 2) monitor("low priority task stranded while the last worker is suspended");
     return rc;
 }
 
@@ -542,18 +564,18 @@ int main(int argc, char** argv)
         auto& t = (*g_tasks)[i];
         if (rc == 0 && t.entered.load() != 1)
             monitor("task " + std::to_string(i) + " entered " + std::to_string(t.entered.load()) + " times");
-        if (rc != 0 && t.finished.load() == 0)
+        if ((rc == 1 || rc == 2) && t.finished.load() == 0)
             monitor("task " + std::to_string(i) + " never finished although nothing moves any more (entered " +
                 std::to_string(t.entered.load()) + ", active PUs " + std::to_string(active()) + ")");
     }
-    if (rc != 0 && g_ctl_running.load() != 0)
+    if ((rc == 1 || rc == 2) && g_ctl_running.load() != 0)
         monitor(std::to_string(g_ctl_running.load()) + " suspend/resume/submit call(s) did not return");
     if (g_low) prog += "+low";
     std::printf("case e2 prog=%s seed=%llu size=%d n=%d policy=%s elastic=%d tasks=%ld\n", prog.c_str(),
         (unsigned long long) seed, size, g_n, policy.c_str(), int(elastic), total);
     e2::dump(stdout);
     for (auto const& m : g_monitor) std::printf("monitor %s\n", m.c_str());
-    std::printf("end %s\nendcase\n", rc == 2 ? "livelock" : rc == 1 ? "hang" : "ok");
+    std::printf("end %s\nendcase\n", rc == 3 ? "overflow" : rc == 2 ? "livelock" : rc == 1 ? "hang" : "ok");
     std::fflush(stdout);
     if (rc != 0) _exit(0);
     pika::finalize();
